@@ -596,6 +596,9 @@ def guarded_decrements(ctx, m: pf.Module, cls: ast.ClassDef, rule: str, value_sr
                     if wr:
                         problems.append(f'`{wr[0].text()}` changes {value_src} or {w} between the guard and the decrement')
                         continue
+                    if cfg.path_avoiding(D, lambda n: n is D, lambda n, t=t: n is t) is not None:
+                        problems.append(f'the decrement can repeat without re-evaluating the guard `{pf.nsrc(t.ast)}`')
+                        continue
                     good = Guarded(fn.name, D, w, t, label, rows)
             if good is not None:
                 ctx.ok(rule, cons, {'guard': pf.nsrc(good.test.ast), 'branch': good.label, 'atomic': True})
